@@ -1,10 +1,25 @@
 from vlib.runner import Ob
 
-US = {"vbi_cache_new.0": 114, "vbi_cache_delete.2": 114, "audit.8": 114}
+US = {"vbi_cache_new.0": 114, "vbi_cache_delete.2": 114, "audit.8": 114, "ref_is_bcd.0": 9, "ref_digit_gt.0": 9,
+      "link_list.0": 7, "link_list.1": 7}
+MF = ["--max-field-sensitivity-array-size", "113"]
+
+
+def cfg(s, r, p=None, **kw):
+    d = dict(C10_NB=len(s))
+    for i, v in enumerate(s):
+        d["C10_S%d" % i] = v
+    for i, v in enumerate(r):
+        d["C10_R%d" % i] = v
+    if p is not None:
+        d["C10_P"] = p
+    d.setdefault("C10_NP", len(s))
+    d.update(kw)
+    return d
 
 
 def obligations(tier, seed):
-    common = dict(harness="h_c10.c", unwind=14, unwindset=US, vin_size=256,
+    common = dict(harness="h_c10.c", unwind=5, unwindset=US, vin_size=256, flags=MF,
                   stubs=["models/c10_env.h: vbi_malloc/vbi_free -> slot pool (1 cache, C10_NN networks, C10_NP pages; separate objects; "
                          "allocation never fails; exceeding the pool ends the path); free of a non-live pointer is an assertion failure",
                          "_vbi_log_printf/_vbi_log_vprintf/_vbi_vasprintf empty (log hooks are off)"])
@@ -12,5 +27,11 @@ def obligations(tier, seed):
         Ob("cache_new", func="h_new", desc="vbi_cache_new establishes the invariant with the documented defaults; vbi_cache_delete frees it",
            encodes=["vbi_cache_new", "vbi_cache_delete", "vbi_cache_purge"], bounds="none", timeout=120, **common),
         Ob("get_page", func="h_get", desc="get", encodes=["_vbi_cache_get_page", "page_by_pgno", "cache_page_ref"],
-           grid=[dict(C10_P=0)], reach=["end", "hit", "miss", "first_ref"], timeout=300, **common),
+           grid=[cfg((0, 0, 1), (0, 0, 0), 0), cfg((0, 0, 1), (1, 1, 1), 0), cfg((0, 0, 1), (0, 1, 0), 0)], reach=["end", "hit", "miss"], timeout=400, **common),
+        Ob("put_page", func="h_put", desc="put", encodes=["_vbi_cache_put_page"],
+           grid=[cfg((0, 0), (0, 0), 0, C10_NP=3), cfg((0, 0), (1, 1), 0, C10_NP=3), cfg((0, 1), (0, 1), 0, C10_NP=3)], reach=["end", "put_new"], timeout=400, **common),
+        Ob("page_ref", func="h_ref", desc="ref", encodes=["cache_page_ref"],
+           grid=[cfg((0, 0, 1), (0, 1, 0), C10_SLOT=0), cfg((0, 0, 1), (0, 1, 0), C10_SLOT=1)], reach=["end"], timeout=400, **common),
+        Ob("page_unref", func="h_unref", desc="unref", encodes=["cache_page_unref"],
+           grid=[cfg((0, 0, 1), (0, 1, 0), C10_SLOT=0), cfg((0, 0, 1), (0, 1, 0), C10_SLOT=1)], reach=["end"], timeout=400, **common),
     ]
